@@ -131,7 +131,10 @@ convert_inum(void *dest, void *val, int val_id, int_t offset)
   } else { /* PyNumber */
 #if PY_MAJOR_VERSION >= 3
     if (PyLong_Check((PyObject *)val)) {
-      *(int_t *)dest = PyLong_AS_LONG((PyObject *)val); return 0;
+      int_t v = PyLong_AS_LONG((PyObject *)val);
+      /* OverflowError for an integer that does not fit */
+      if (v == -1 && PyErr_Occurred()) return -1;
+      *(int_t *)dest = v; return 0;
     }
 #else
     if (PyInt_Check((PyObject *)val)) {
@@ -157,7 +160,10 @@ convert_dnum(void *dest, void *val, int val_id, int_t offset)
 #else
     if (PyInt_Check((PyObject *)val) || PyFloat_Check((PyObject *)val)) {
 #endif
-      *(double *)dest = PyFloat_AsDouble((PyObject *)val);
+      double v = PyFloat_AsDouble((PyObject *)val);
+      /* OverflowError for an integer that is too large for a double */
+      if (v == -1.0 && PyErr_Occurred()) return -1;
+      *(double *)dest = v;
       return 0;
     }
     else PY_ERR_INT(PyExc_TypeError,"cannot cast argument as double");
@@ -191,6 +197,7 @@ convert_znum(void *dest, void *val, int val_id, int_t offset)
     }
   } else { /* PyNumber */
     Py_complex c = PyComplex_AsCComplex((PyObject *)val);
+    if (c.real == -1.0 && PyErr_Occurred()) return -1;
 #ifndef _MSC_VER
     *(double complex *)dest = c.real + I*c.imag;
 #else
